@@ -22,6 +22,7 @@ EXPLANATION = (
     " Also decided (rules added after the fifth blind round): (R16.6) the --split part suffix never truncates the part number; (R16.7) with -n the interpreted engine's namespace is rebuilt for every record."
     " Rules added after the sixth blind round: (R16.8 = R15.2 of C15) the timestamp expansion reads the original record; (R16.9 = R20.2 of C20) the CSV writer writes a header per run of a record type."
     " Rules added after the seventh blind round: (R16.10 = R5.9 of C05) the generated constructor / decoder of keyword-named descriptors never truth-tests a generic field value, so falsy values pass through rdump unchanged."
+    " Taken over at the end of the session: (R16.11 = R10.2 of C10) the matcher starts every record with fresh data."
 )
 RULE_SUMMARY = "instances: source-handling call sites with their handlers, loop paths to the writer, slice arguments, rewriter definitions"
 
@@ -246,6 +247,7 @@ def run(ctx):
     # ------------------------------------------------------------------ rules of sibling properties that rdump's contract rests on
     ctx.import_rule("C15", "R15.2", "R16.8", "--multi-timestamp expands each record with iter_timestamped_records: every expansion reads the ORIGINAL record")
     ctx.import_rule("C20", "R20.2", "R16.9", "-m csv / -w csvfile: the same records come out whatever the writer - the CSV writer starts a new header whenever the record type changes")
+    ctx.import_rule("C10", "R10.2", "R16.11", "rdump applies one selector object to every record of the stream: the matcher starts every record with fresh data, so a record is selected for what it holds and not for what came before it")
 
     # ------------------------------------------------------------------ R16.10 (shared rule) records with keyword-named fields keep their falsy values
     from .c05 import check_generated_value_tests as _cgv16
